@@ -55,7 +55,7 @@ def q1(chk: core.Check, N: int) -> None:
             alg = S.Z3Alg()
             db = S.z3_db([nodes], alg)
             rel = S.Evaluator(db).select(stmt, {})
-            code = lambda s: S.Z3Alg.const(s)
+            code = alg.const
             # slot ids pairwise distinct (also for empty slots: they only serve to align output rows with slots)
             pre = [nodes.val[i]["id"] != nodes.val[j]["id"] for i in range(N) for j in range(i + 1, N)]
             bad = []
